@@ -31,9 +31,13 @@ def replaceByte (c : UInt8) (rep : Bytes) : Bytes → Bytes
   | b :: r => if b = c then rep ++ replaceByte c rep r else b :: replaceByte c rep r
 
 /-- dotgraph.go `escapeForDot`:
-`ReplaceAll(ReplaceAll(ReplaceAll(str, "\\", "\\\\"), "\"", "\\\""), "\n", "\\l")`. -/
+`ReplaceAll(ReplaceAll(ReplaceAll(str, "\\", "\\\\"), "\"", "\\\""), "\n", "\\l")` — the one-byte
+patterns and their replacements, innermost call first.  `Gen/DotSites.lean` regenerates this
+list from the source and Props/C18 compares (`escape_spec_matches`). -/
+def escapeSpec : List (UInt8 × Bytes) := [(BS, [BS, BS]), (DQ, [BS, DQ]), (NL, [BS, LL])]
+
 def escape (s : Bytes) : Bytes :=
-  replaceByte NL [BS, LL] (replaceByte DQ [BS, DQ] (replaceByte BS [BS, BS] s))
+  escapeSpec.foldl (fun acc p => replaceByte p.1 p.2 acc) s
 
 /-- what `escape` does to one byte (proved equal in Lemmas/DotEscape). -/
 def escByte (b : UInt8) : Bytes :=
@@ -41,32 +45,26 @@ def escByte (b : UInt8) : Bytes :=
 
 /-- Graphviz's reading of an escString body as displayed text, restricted to what `escape`
 produces: `\\`→`\`, `\"`→`"`, `\l` and `\n` → line break, any other `\x` → `x`. -/
-def unescape : Bytes → Bytes
-  | [] => []
-  | [b] => [b]
-  | b :: c :: r =>
-    if b = BS then (if c = LL || c = 0x6e then NL else c) :: unescape r
-    else b :: unescape (c :: r)
+def unescapeA : Bool → Bytes → Bytes
+  | _, [] => []
+  | true, c :: r => (if c = LL || c = 0x6e then NL else c) :: unescapeA false r
+  | false, b :: r => if b = BS then unescapeA true r else b :: unescapeA false r
+
+def unescape (s : Bytes) : Bytes := unescapeA false s
 
 /-! ### lexer -/
 
 /-- Scan the body of a quoted string (the opening quote already consumed): returns the raw body
 (escape units intact) and the input after the closing quote; `none` when unterminated. -/
-def scanQ : Bytes → Option (Bytes × Bytes)
-  | [] => none
-  | b :: r =>
+def scanA : Bool → Bytes → Option (Bytes × Bytes)
+  | _, [] => none
+  | true, c :: r => (scanA false r).map fun p => (c :: p.1, p.2)   -- second byte of a `\x` unit
+  | false, b :: r =>
     if b = DQ then some ([], r)
-    else if b = BS then
-      match r with
-      | [] => none
-      | c :: r' =>
-        match scanQ r' with
-        | some (body, rest) => some (b :: c :: body, rest)
-        | none => none
-    else
-      match scanQ r with
-      | some (body, rest) => some (b :: body, rest)
-      | none => none
+    else if b = BS then (scanA true r).map fun p => (b :: p.1, p.2)
+    else (scanA false r).map fun p => (b :: p.1, p.2)
+
+def scanQ (s : Bytes) : Option (Bytes × Bytes) := scanA false s
 
 /-- A quoted string token at the head of the input. -/
 def lexQuoted : Bytes → Option (Bytes × Bytes)
@@ -75,15 +73,12 @@ def lexQuoted : Bytes → Option (Bytes × Bytes)
 
 /-- `body` can stand between two quotes: scanning it ends exactly at the closing quote.  Boolean
 form, structural, so literal fragments are checked by `decide`. -/
-def qsafeB : Bytes → Bool
-  | [] => true
-  | b :: r =>
-    if b = DQ then false
-    else if b = BS then
-      match r with
-      | [] => false
-      | _ :: r' => qsafeB r'
-    else qsafeB r
+def qsafeA : Bool → Bytes → Bool
+  | esc, [] => !esc
+  | true, _ :: r => qsafeA false r
+  | false, b :: r => if b = DQ then false else if b = BS then qsafeA true r else qsafeA false r
+
+def qsafeB (s : Bytes) : Bool := qsafeA false s
 
 inductive Tok where
   | id (s : Bytes)     -- bare identifier or numeral
@@ -143,12 +138,12 @@ structure Graph where
   deriving Repr, DecidableEq
 
 /-- In DOT the only escape the *lexer* removes from a quoted ID is `\"`. -/
-def unquote : Bytes → Bytes
-  | [] => []
-  | [b] => [b]
-  | b :: c :: r => if b = BS && c = DQ then DQ :: unquote r
-                   else if b = BS && c = BS then BS :: BS :: unquote r
-                   else b :: unquote (c :: r)
+def unquoteA : Bool → Bytes → Bytes
+  | esc, [] => if esc then [BS] else []
+  | true, c :: r => if c = DQ then DQ :: unquoteA false r else BS :: c :: unquoteA false r
+  | false, b :: r => if b = BS then unquoteA true r else b :: unquoteA false r
+
+def unquote (s : Bytes) : Bytes := unquoteA false s
 
 def lower (b : UInt8) : UInt8 := if 0x41 ≤ b && b ≤ 0x5a then b + 0x20 else b
 
